@@ -25,7 +25,7 @@ ASSUMPTIONS = [
     'named as a dependency depends on "everything", which the statement does not cover)',
     'invocation order between different methods is not asserted',
 ]
-REQUIRED = {'ops': 3000, 'invocations': 3000, 'overrides': 200, 'method_on_method': 200, 'function_form_ops': 300, 'methods_without_dependencies': 60}
+REQUIRED = {'ops': 3000, 'invocations': 3000, 'overrides': 200, 'method_on_method': 200, 'function_form_ops': 300, 'methods_without_dependencies': 60, 'plain_mixin_first': 30}
 
 _st = {}
 PNAMES = ['p0', 'p1', 'p2', 'p3']
@@ -71,6 +71,11 @@ def run_case(idx, rng, P, rep):
             bases = (classes[0], classes[1])
         else:
             bases = (classes[-1],)
+        if ci > 0 and rng.random() < 0.15:
+            # an ordinary (non-Parameterized) mixin listed before the Parameterized bases
+            plain = type(f'Plain{idx}_{ci}', (), {'helper': lambda self: None})
+            bases = (plain,) + bases
+            rep.count('plain_mixin_first')
         ns = {}
         if ci == 0:
             for pn in PNAMES:
@@ -351,6 +356,12 @@ def function_form_case(idx, rng, P, rep):
     class B(param.Parameterized):
         b = param.Number(default=4.0)
 
+    if rng.random() < 0.3:
+        # value-style equality: the two (distinct) owners compare equal and hash alike - they are still two objects
+        for K in (A, B):
+            K.__eq__ = lambda self, other: isinstance(other, param.Parameterized)
+            K.__hash__ = lambda self: 1
+        rep.count('function_form_equal_owners')
     oa, ob = A(), B()
     calls = []
 
